@@ -225,6 +225,16 @@ func C14_MainLoop() {
 		env.ChanOffer(n.m.mainUpdateStateChannel, &blockWithProof{block: &stub.Block{H: primitives.BlockHeight(hs[i])}})
 		max = env.IteU64(hs[i] > max, hs[i], max)
 	}
+	if ne := env.ParamOr("elections", 0); ne > 0 {
+		// election triggers for the current height (not stale) arrive while an earlier trigger is still parked in
+		// the worker's one-slot channel (the worker is busy in an SPI call and takes nothing)
+		n.m.worker.electionChannel <- &interfaces.ElectionTrigger{MoveToNextLeader: func() {}, Hv: state.NewHeightView(1, 0)}
+		for i := 0; i < ne; i++ {
+			ev := env.NondetU64("ev")
+			env.Assume(ev < 1<<62)
+			env.ChanOffer(n.el.Channel, &interfaces.ElectionTrigger{MoveToNextLeader: func() {}, Hv: state.NewHeightView(1, primitives.View(ev))})
+		}
+	}
 	ctx := env.CancelWhenIdle()
 	p := env.Catch(func() { n.m.run(ctx) })
 	env.Assert("C14.mainloop_never_blocks", p == 0)
